@@ -51,6 +51,11 @@ Section Orc.
       else if str_eqb name $"has_inert_opener" then Some (L (map (fun s => sx_of_bool (has_inert_opener s)) strs))
       else if str_eqb name $"plain_raw" then Some (L (map (fun s => sx_of_bool (plain_raw s)) strs))
       else if str_eqb name $"scan_raw" then Some (L (map (fun s => sx_of_raw (scan_raw s)) strs))
+      else if str_eqb name $"written_rule" then
+        (* first character: match_redirect's answer (A allow, K ask, D deny, anything else: no rule) *)
+        let dec (c : N) : option verdict := if N.eqb c 65 then Some Allow else if N.eqb c 75 then Some Ask else if N.eqb c 68 then Some Deny else None in
+        let enc (v : option verdict) : str := match v with Some Allow => [65] | Some Ask => [75] | Some Deny => [68] | None => [78] end in
+        Some (L (map (fun s => match s with c :: t => A (enc (written_rule (dec c) t)) | [] => A [78] end) strs))
       else None
     else if is_cmd cmd "coverage" then
       (* unary counts: (executable nodes in the tree, executable nodes reached by the specification) *)
